@@ -25,13 +25,13 @@ class TableJob:
     """One TLC exploration of MC.tla whose emitted rows are replayed on the code."""
 
     def __init__(self, name, acts, emit, vals="{1}", hosts='{"0"}', keylen=2, base="<<>>", maxcount=7,
-                 viewacct=False, entrydepth=1, maxnodes=99, uar=False, targets=None, workers=8, timeout=1200, root="MC", extra_consts=None,
+                 viewacct=False, entrydepth=1, maxnodes=99, uar=False, keys=None, targets=None, workers=8, timeout=1200, root="MC", extra_consts=None,
                  inv=None, props=None, profile="dev", release_targets=(), simulate=None, depth=25):
         self.simulate, self.depth = simulate, depth
         self.profile = profile
         self.release_targets = list(release_targets)
         self.name, self.acts, self.emit = name, acts, emit
-        self.consts = dict(KeyLen=str(keylen), Base=base, Hosts=hosts, Vals=vals, Acts=tset(acts),
+        self.consts = dict(KeyLen=str(keylen), Base=base, ExplicitKeys=keys or "{}", Hosts=hosts, Vals=vals, Acts=tset(acts),
                            MaxCount=str(maxcount), MaxNodes=str(maxnodes), EmitActs=tset(emit),
                            ViewAcct="TRUE" if viewacct else "FALSE", EntryDepth=str(entrydepth),
                            UseAfterRemove="TRUE" if uar else "FALSE")
@@ -59,9 +59,9 @@ class PairJob:
     replay_cmd = "replay-pairs"
 
     def __init__(self, name, acts_a, acts_b, pair_acts, max_a, max_b, emit=None, targets=None, hosts='{"0"}',
-                 workers=8, timeout=900, keylen=2, base="<<>>", vals_a="{1}", vals_b="{2}", nodes_a=99, nodes_b=99):
+                 workers=8, timeout=900, keylen=2, base="<<>>", vals_a="{1}", vals_b="{2}", nodes_a=99, nodes_b=99, keys=None):
         self.name = name
-        self.consts = dict(KeyLen=str(keylen), Base=base, Hosts=hosts, ValsA=vals_a, ValsB=vals_b, ActsA=tset(acts_a),
+        self.consts = dict(KeyLen=str(keylen), Base=base, ExplicitKeys=keys or "{}", Hosts=hosts, ValsA=vals_a, ValsB=vals_b, ActsA=tset(acts_a),
                            ActsB=tset(acts_b), PairActs=tset(pair_acts), MaxCountA=str(max_a), MaxCountB=str(max_b), MaxNodesA=str(nodes_a), MaxNodesB=str(nodes_b),
                            EmitActs=tset(pair_acts if emit is None else emit))
         self.targets = targets or [("u32", "map-map", "plain")]
@@ -129,6 +129,10 @@ def trace_jobs(prop, tier):
     extra = [TraceJob("u32" if q else t, "set", runs=3 if q else 8, events=300 if q else 1500, salt=50 + i)
              for i, t in enumerate(["u32"] if q else ["u8", "u64", "Ipv6Net", "Ipv4Cidr"])] \
         if prop in ("C01", "C02", "C03", "C04", "C09", "C10", "C15", "C16") else []
+    # complete chains down to full width (walks of maximal depth)
+    if prop not in pair_props:
+        extra += [TraceJob(t, "chain", runs=3 if q else 8, events=400 if q else 1500, salt=70 + i)
+                  for i, t in enumerate(["u8", "u64"] if q else ["u8", "u16", "u32", "u64", "u128", "Ipv4Net", "Ipv6Net"])]
     if q:
         ts = ["u32", "Ipv6Net", "u8", "Ipv4Inet"]
         return [TraceJob(t, prof, runs=6, events=400, salt=i) for i, t in enumerate(ts)] + extra
@@ -241,7 +245,14 @@ def plan(prop, tier):
         # the same operations at the boundary lengths width-2 .. width
         bpt = [(t, "map-map", "stretch:2") for t in (["u8", "u128", "Ipv4Net"] if q else ALL_TYPES)]
         bnd_pairs = [PairJob(prop.lower() + "_bnd", IR, IR, ops, 2, 2, base="<<1>>", nodes_a=4, nodes_b=4, targets=bpt)]
-        return split + bnd_pairs + [PairJob(prop.lower() + "_cc", IR, IR, ops, 3, 3, targets=pt),
+        # a chain four levels deep with siblings: deeper than the complete universes can afford for pairs
+        CH7 = "{<<>>, <<0>>, <<0,0>>, <<0,0,0>>, <<0,0,0,0>>, <<0,0,0,1>>, <<0,0,1,0>>}"
+        CH10 = "{<<>>, <<0>>, <<0,0>>, <<0,0,0>>, <<0,0,0,0>>, <<0,0,0,1>>, <<0,0,1>>, <<0,0,1,0>>, <<0,1>>, <<1>>}"
+        ch = CH7 if q else CH10
+        dpt = [(t, "map-map", "plain") for t in (["u32"] if q else ["u8", "u32", "u128", "Ipv4Net"])]
+        deep_pairs = [PairJob(prop.lower() + "_deep_lc", IRK, IR, ops, 3, 1, nodes_a=6, nodes_b=2, keylen=-1, keys=ch, targets=dpt, timeout=2400),
+                      PairJob(prop.lower() + "_deep_cl", IR, IRK, ops, 1, 3, nodes_a=2, nodes_b=6, keylen=-1, keys=ch, targets=dpt, timeout=2400)]
+        return split + bnd_pairs + deep_pairs + [PairJob(prop.lower() + "_cc", IR, IR, ops, 3, 3, targets=pt),
                 PairJob(prop.lower() + "_lc", IRK, IR, ops, n, 2, nodes_a=4 if q else 6, targets=pt),
                 PairJob(prop.lower() + "_cl", IR, IRK, ops, 2, n, nodes_b=4 if q else 6, targets=pt)]
     if prop == "C18":
